@@ -103,6 +103,7 @@ class Execution:
         # digest of the in-memory objects the workers share (thread mode) or own (process mode): part of the state key, and
         # recorded into a worker's observations at the start of each of its steps (what it can read between two points)
         self.mem_digest = None
+        self.proc_images = None  # ProcImages in forked-process mode
 
     # ---- worker side
     def in_worker(self):
@@ -232,16 +233,22 @@ class Execution:
                 self.enabled_log.append(tuple(en))
                 self.last = c
                 w = self.workers[c]
+                if self.proc_images is not None:
+                    self.proc_images.swap_in(c)
                 if self.mem_digest is not None:
                     w.obs.append(("mem", self.mem_digest()))
                 w.go.release()
                 if not self.back.acquire(timeout=120):  # until it reaches its next point or finishes
                     raise RuntimeError(f"worker {c} neither reached a scheduling point nor finished within 120 s (blocked on something the scheduler does not own)")
+                if self.proc_images is not None:
+                    self.proc_images.swap_out(c)
                 step += 1
                 if step > max_steps:
                     raise RuntimeError("scheduler horizon exceeded")
         finally:
             self._abort()
+            if self.proc_images is not None:
+                self.proc_images.restore()
             CURRENT = None
             vfs.on_op = None
             vfs.on_read = None
@@ -286,40 +293,149 @@ def digest(obj, depth=0):
     return type(obj).__name__
 
 
+class ProcImages:
+    """forked-process mode: each worker owns a private image of panoptica's module-level data (module attributes that are
+    not modules / functions / classes / locks, and the mutable default arguments of its functions), as fork gives every child
+    its own copy of the interpreter state. The image of the worker about to run is swapped in, and saved again after its step."""
+
+    def __init__(self, nworkers, base=None):
+        self.base = base if base is not None else capture_image()
+        self.images = [_copy_image(self.base) for _ in range(nworkers)]
+
+    _KEYS = None  # the (kind, module, attribute[, method]) slots, discovered once
+
+    @classmethod
+    def _discover(cls):
+        import sys
+        import types
+
+        keys = []
+        for name, mod in list(sys.modules.items()):
+            if not name.startswith("panoptica") or mod is None:
+                continue
+            for attr, val in list(vars(mod).items()):
+                if attr.startswith("__"):
+                    continue
+                if isinstance(val, (types.ModuleType, types.FunctionType, types.BuiltinFunctionType, type, SchedLock)):
+                    if isinstance(val, types.FunctionType) and val.__module__ == name and val.__defaults__:
+                        if any(isinstance(d, (list, dict, set)) for d in val.__defaults__):
+                            keys.append(("defaults", name, attr))
+                    if isinstance(val, type) and val.__module__ == name:
+                        for a2, v2 in list(vars(val).items()):
+                            f = v2.__func__ if isinstance(v2, (classmethod, staticmethod)) else v2
+                            if isinstance(f, types.FunctionType) and f.__defaults__ and any(isinstance(d, (list, dict, set)) for d in f.__defaults__):
+                                keys.append(("cdefaults", name, attr, a2))
+                    continue
+                if callable(val) and not isinstance(val, (list, dict, set)):
+                    continue
+                keys.append(("attr", name, attr))
+        cls._KEYS = keys
+
+    @classmethod
+    def _snapshot(cls):
+        import sys
+
+        if cls._KEYS is None:
+            cls._discover()
+        out = {}
+        for k in cls._KEYS:
+            try:
+                if k[0] == "attr":
+                    out[k] = getattr(sys.modules[k[1]], k[2])
+                elif k[0] == "defaults":
+                    out[k] = getattr(sys.modules[k[1]], k[2]).__defaults__
+                else:
+                    f = vars(getattr(sys.modules[k[1]], k[2]))[k[3]]
+                    f = f.__func__ if isinstance(f, (classmethod, staticmethod)) else f
+                    out[k] = f.__defaults__
+            except Exception:
+                pass
+        # module attributes created since discovery (a cache bound lazily) are part of the image as well
+        for name in [k[1] for k in cls._KEYS if k[0] == "attr"][:0]:
+            pass
+        return out
+
+    def swap_in(self, wid):
+        import sys
+
+        for k, v in self.images[wid].items():
+            try:
+                if k[0] == "attr":
+                    setattr(sys.modules[k[1]], k[2], v)
+                elif k[0] == "defaults":
+                    getattr(sys.modules[k[1]], k[2]).__defaults__ = v
+                elif k[0] == "cdefaults":
+                    f = vars(getattr(sys.modules[k[1]], k[2]))[k[3]]
+                    f = f.__func__ if isinstance(f, (classmethod, staticmethod)) else f
+                    f.__defaults__ = v
+            except Exception:
+                pass
+
+    def swap_out(self, wid):
+        cur = self._snapshot()
+        self.images[wid].update(cur)
+
+    def restore(self):
+        """back to the base image (end of an execution)"""
+        restore_image(self.base)
+
+    def digest(self):
+        return hash(tuple(digest(sorted(((repr(k), digest(v, 2)) for k, v in img.items()))) for img in self.images))
+
+
+def _copy_image(img):
+    import copy
+
+    out = {}
+    for k, v in img.items():
+        try:
+            out[k] = copy.deepcopy(v)
+        except Exception:
+            out[k] = v
+    return out
+
+
+_PRISTINE_ATTRS: dict = {}
+
+
+def capture_image():
+    """deep copy of panoptica's module-level data as it is now (see ProcImages)"""
+    import sys
+
+    snap = ProcImages._snapshot()
+    if not _PRISTINE_ATTRS:
+        for name, mod in list(sys.modules.items()):
+            if name.startswith("panoptica") and mod is not None:
+                _PRISTINE_ATTRS[name] = set(vars(mod))
+    return _copy_image(snap)
+
+
+def restore_image(img):
+    """make panoptica's module-level data equal to (a fresh copy of) the image: what a fresh process / a fresh replay starts from.
+    Module attributes that did not exist when the first image was taken (lazily bound caches) are removed."""
+    import sys
+
+    for name, attrs in _PRISTINE_ATTRS.items():
+        mod = sys.modules.get(name)
+        if mod is None:
+            continue
+        for a in [a for a in vars(mod) if a not in attrs and not a.startswith("__")]:
+            try:
+                delattr(mod, a)
+            except Exception:
+                pass
+    p = ProcImages.__new__(ProcImages)
+    p.images = [_copy_image(img)]
+    p.swap_in(0)
+
+
 _GLOBAL_CONTAINERS = None
 
 
 def global_state_digest():
-    """digest of every module-level container and mutable default argument in panoptica.* (found once, re-read on each call):
-    shared in-memory state outside the driven objects is part of the explored state as well"""
-    global _GLOBAL_CONTAINERS
-    import sys
-    import types
-
-    if _GLOBAL_CONTAINERS is None:
-        found = []
-        for name, mod in sorted(sys.modules.items()):
-            if not name.startswith("panoptica") or mod is None:
-                continue
-            for attr, val in sorted(vars(mod).items()):
-                if attr.startswith("__"):
-                    continue
-                if isinstance(val, (list, dict, set)):
-                    found.append(val)
-                fns = []
-                if isinstance(val, types.FunctionType) and val.__module__ == name:
-                    fns.append(val)
-                elif isinstance(val, type) and val.__module__ == name:
-                    for v2 in vars(val).values():
-                        f = v2.__func__ if isinstance(v2, (classmethod, staticmethod)) else v2
-                        if isinstance(f, types.FunctionType):
-                            fns.append(f)
-                for f in fns:
-                    for d in list(f.__defaults__ or ()) + list((f.__kwdefaults__ or {}).values()):
-                        if isinstance(d, (list, dict, set)):
-                            found.append(d)
-        _GLOBAL_CONTAINERS = found
-    return hash(tuple(digest(c, 2) for c in _GLOBAL_CONTAINERS))
+    """digest of panoptica's module-level data (the slots of ProcImages): shared in-memory state outside the driven objects is
+    part of the explored state as well"""
+    return hash(tuple((k, digest(v, 2)) for k, v in sorted(ProcImages._snapshot().items(), key=lambda kv: repr(kv[0]))))
 
 
 def explore_states(make, judge_terminal, max_states=200000):
@@ -336,6 +452,10 @@ def explore_states(make, judge_terminal, max_states=200000):
         ex = Execution(bodies, locks)
         if isinstance(ctx, dict) and ctx.get("mem_digest") is not None:
             ex.mem_digest = ctx["mem_digest"]
+        if isinstance(ctx, dict) and ctx.get("proc_images"):
+            ex.proc_images = ProcImages(len(bodies), ctx.get("image"))
+            base_digest = ex.mem_digest
+            ex.mem_digest = (lambda ex=ex, base_digest=base_digest: hash((base_digest() if base_digest else 0, ex.proc_images.digest())))
         ex.run(schedule, stop=True)
         stats["executions"] += 1
         return ex, ctx
